@@ -306,4 +306,99 @@ theorem snake_words (s : List Char) :
     snake s = List.intercalate ['_'] ((words s).map (·.map toLower)) ∧ (∀ w ∈ words s, w ≠ [] ∧ AllAlnum w) :=
   ⟨by simp [snake], fun w hw => ⟨words_nonempty s w hw, words_alnum s w hw⟩⟩
 
+/-! ## no `_` at either end, no two in a row -/
+
+/-- no two `_` in a row -/
+def noDouble : List Char → Bool
+  | a :: b :: r => !(a == '_' && b == '_') && noDouble (b :: r)
+  | _ => true
+
+def UFree (w : List Char) : Prop := ∀ c ∈ w, c ≠ '_'
+
+theorem noDouble_ufree_append : ∀ (w l : List Char), UFree w → noDouble l = true → noDouble (w ++ l) = true
+  | [], l, _, h => h
+  | [a], l, hw, h => by
+    have ha : a ≠ '_' := hw a (by simp)
+    cases l with
+    | nil => rfl
+    | cons b r => simp [noDouble, ha, h]
+  | a :: b :: r, l, hw, h => by
+    have ha : a ≠ '_' := hw a (by simp)
+    have ih := noDouble_ufree_append (b :: r) l (fun c hc => hw c (List.mem_cons_of_mem _ hc)) h
+    simp only [List.cons_append] at ih ⊢
+    simp [noDouble, ha, ih]
+
+theorem getLast?_append_cons (w : List Char) (x : Char) (l : List Char) : (w ++ x :: l).getLast? = (x :: l).getLast? := by
+  induction w with
+  | nil => rfl
+  | cons a r ih => cases h : r ++ x :: l with
+    | nil => simp at h
+    | cons y t => simp only [List.cons_append, h, List.getLast?_cons_cons]; rw [← h]; exact ih
+
+/-- `_`-joined non-empty `_`-free words: no `_` at either end, no two in a row -/
+theorem intercalate_shape : ∀ (ws : List (List Char)), (∀ w ∈ ws, w ≠ [] ∧ UFree w) →
+    (List.intercalate ['_'] ws).head? ≠ some '_' ∧ (List.intercalate ['_'] ws).getLast? ≠ some '_' ∧
+      noDouble (List.intercalate ['_'] ws) = true
+  | [], _ => by simp [List.intercalate, noDouble]
+  | [w], h => by
+    have ⟨_, hu⟩ := h w (by simp)
+    have e : List.intercalate ['_'] [w] = w := by simp [List.intercalate]
+    rw [e]
+    refine ⟨?_, ?_, ?_⟩
+    · intro hh; cases w with
+      | nil => simp at hh
+      | cons a r => simp at hh; exact hu a (by simp) hh
+    · intro hh
+      have := List.mem_of_getLast? hh
+      exact hu _ this rfl
+    · simpa using noDouble_ufree_append w [] hu rfl
+  | w :: w2 :: r, h => by
+    have ⟨hne, hu⟩ := h w (by simp)
+    have ih := intercalate_shape (w2 :: r) (fun v hv => h v (List.mem_cons_of_mem _ hv))
+    have e : List.intercalate ['_'] (w :: w2 :: r) = w ++ '_' :: List.intercalate ['_'] (w2 :: r) := by
+      simp [List.intercalate, List.intersperse]
+    have hne2 : List.intercalate ['_'] (w2 :: r) ≠ [] := by
+      have ⟨h2, _⟩ := h w2 (by simp)
+      cases r with
+      | nil => simpa [List.intercalate] using h2
+      | cons w3 r3 =>
+        have : List.intercalate ['_'] (w2 :: w3 :: r3) = w2 ++ '_' :: List.intercalate ['_'] (w3 :: r3) := by
+          simp [List.intercalate, List.intersperse]
+        rw [this]; simp
+    rw [e]
+    refine ⟨?_, ?_, ?_⟩
+    · cases w with
+      | nil => exact absurd rfl hne
+      | cons a t => intro hh; simp at hh; exact hu a (by simp) hh
+    · rw [getLast?_append_cons]
+      cases hl : List.intercalate ['_'] (w2 :: r) with
+      | nil => exact absurd hl hne2
+      | cons y t => rw [List.getLast?_cons_cons, ← hl]; exact ih.2.1
+    · apply noDouble_ufree_append w _ hu
+      cases hl : List.intercalate ['_'] (w2 :: r) with
+      | nil => exact absurd hl hne2
+      | cons y t =>
+        have hy : y ≠ '_' := by
+          have := ih.1; rw [hl] at this; simpa using this
+        have := ih.2.2; rw [hl] at this
+        simp [noDouble, hy, this]
+
+theorem underscore_not_alnum : isAlnum '_' = false := by decide
+
+/-- **`snake s` never starts or ends with `_` and never has two `_` in a row.** -/
+theorem snake_shape (s : List Char) :
+    (snake s).head? ≠ some '_' ∧ (snake s).getLast? ≠ some '_' ∧ noDouble (snake s) = true := by
+  have e : snake s = List.intercalate ['_'] ((words s).map (·.map toLower)) := by simp [snake]
+  rw [e]
+  apply intercalate_shape
+  intro w hw
+  obtain ⟨v, hv, rfl⟩ := List.mem_map.1 hw
+  refine ⟨by simpa using words_nonempty s v hv, ?_⟩
+  intro c hc
+  obtain ⟨d, hd, rfl⟩ := List.mem_map.1 hc
+  intro h0
+  have := toLower_alnum d (words_alnum s v hv d hd)
+  rw [h0, underscore_not_alnum] at this
+  cases this
+
 end SeaQ.Props.C19Snake
